@@ -504,6 +504,8 @@ func propC06(c *Ctx) {
 	rdu := c.Rule("defer-unlock", "in the VM and the stdlib modules a mutex held across calls is released by a deferred Unlock (an explicit Unlock is skipped when a recovered panic unwinds through the function, leaving the VM or object locked)", 1)
 	ruleDeferUnlock(c, rdu, l.RepoFuncs(isLibPkg))
 
+	rtr := c.Rule("throw-reentry", "the unwinding routine is not re-entered from the functions it calls while the VM's frame state is only partly switched", 1)
+	ruleThrowReentry(c, rtr)
 	rjd := c.Rule("json-depth", "every growth of the JSON scanner's nesting stack is followed by the maximum-depth test: the recursive decoder cannot be driven into exhausting the Go stack, which no recover() can stop", 1)
 	ruleJSONDepth(c, rjd)
 
